@@ -469,6 +469,19 @@ theorem C05_no_orphan_concurrent (ops : List Op) :
   have h := inv_run init inv_init ops
   exact ⟨h.noOrphans, h.procs, h.mnodup⟩
 
+/-- no reservation is ever leaked: whenever no makegateway call is in flight nothing is reserved, so an id that is not a
+member's id can always be used again — whatever mixture of refused, failed and successful calls came before -/
+theorem C05_no_reservation_leak (ops : List Op) (hq : (run codeCfg init ops).2.inflight = []) :
+    (run codeCfg init ops).2.reserved = [] := by
+  rw [C05_reservation_pinned.1] at *
+  have h := inv_run init inv_init ops
+  generalize (run good init ops).2 = w at *
+  cases hr : w.reserved with
+  | nil => rfl
+  | cons id rest =>
+    obtain ⟨c, hc⟩ := h.owned id (by simp [hr])
+    simp [hq] at hc
+
 /-- a call that is refused because the id is taken changes nothing (in particular not the reservation of the call
 that holds the id) -/
 theorem C05_refused_call_inert (w : W) (c id : Nat) (h : (step codeCfg w (.begin c (some id))).1 = .idTaken) :
